@@ -31,7 +31,7 @@ import uuid
 from .model_element import ModelElement, ElementType, TopologyException
 
 from ..slivers.interface_info import InterfaceType, InterfaceSliver
-from ..graph.abc_property_graph import ABCPropertyGraph
+from ..graph.abc_property_graph import ABCPropertyGraph, PropertyGraphQueryException
 from ..slivers.capacities_labels import Labels
 from ..view_only_dict import ViewOnlyDict
 
@@ -176,13 +176,34 @@ class Interface(ModelElement):
         self.topo.graph_model.remove_cp_and_links(node_id=node_id, delete_parent=False)
         self._interfaces = list(filter((lambda x: x.node_id != node_id), self._interfaces))
 
+    def __current_interfaces(self) -> list:
+        """
+        The child interfaces the model holds for this interface now: another handle of the same
+        port may have added or removed some since this one was made, so the list the handle keeps
+        is brought up to date before it is reported.
+        :return:
+        """
+        try:
+            if self.type != InterfaceType.DedicatedPort:
+                return self._interfaces
+            ids = self.topo.graph_model.get_all_child_connection_points(interface_id=self.node_id)
+        except PropertyGraphQueryException:
+            # the interface itself is no longer in the model
+            return self._interfaces
+        current = list()
+        for iff in ids:
+            _, props = self.topo.graph_model.get_node_properties(node_id=iff)
+            current.append(Interface(node_id=iff, topo=self.topo, name=props[ABCPropertyGraph.PROP_NAME]))
+        self._interfaces = current
+        return self._interfaces
+
     def __list_interfaces(self) -> ViewOnlyDict:
         """
         List all interfaces of the network service as a dictionary
         :return:
         """
         ret = dict()
-        for intf in self._interfaces:
+        for intf in self.__current_interfaces():
             ret[intf.name] = intf
         return ViewOnlyDict(ret)
 
@@ -191,7 +212,7 @@ class Interface(ModelElement):
         Return a list of names of interfaces of network service
         :return:
         """
-        return tuple(self._interfaces)
+        return tuple(self.__current_interfaces())
 
     @property
     def interface_list(self):
